@@ -1704,6 +1704,18 @@ where
         self.keep = true;
     }
 
+    /// Record that this report turned out to have nothing to say and that therefore
+    /// nothing was sent to the peer.
+    ///
+    /// The changes and events examined by the report are still consumed when the
+    /// subscription is kept (none of them concerns this subscriber), but the
+    /// timestamp of the last report is preserved: the min-interval quiet period and -
+    /// crucially - the max-interval liveness deadline are measured from the last
+    /// report the subscriber actually received, not from a report that was skipped.
+    pub fn set_not_sent(&mut self) {
+        self.next_reported_at = self.subscription().reported_at;
+    }
+
     /// Keep the subscription in the table after a *failed* send to the peer, so it
     /// retries — with a back-off, and without advancing its watermarks or its
     /// last-success timestamp.
